@@ -138,6 +138,8 @@ func RunCrashCase(c *CrashCase, replay bool, filter SiteFilter) (*Failure, []str
 			spec.SnapOut = fmt.Sprintf("%s/snap-r%d.json", root, ri)
 			_ = os.Remove(spec.SnapOut)
 		}
+		spec.EndSnap = fmt.Sprintf("%s/endsnap-r%d.json", root, ri)
+		_ = os.Remove(spec.EndSnap)
 		site := "clean-close"
 		if rd.Abandon {
 			spec.NoClose = true
@@ -259,6 +261,20 @@ func RunCrashCase(c *CrashCase, replay bool, filter SiteFilter) (*Failure, []str
 			classes = append(classes, "clean_round")
 		}
 		msg := fmt.Sprintf("round %d steps [%d,%d) acked=%d: ", ri, from, to, acked)
+		if !res.Crashed && res.WriteError == "" {
+			// the process ended by closing cleanly: what it saw itself right before
+			// the close must be exactly the acknowledged state (a write made after a
+			// recovery is visible in the process that made it, and the close/reopen
+			// judged below must not change the visible state)
+			if snap, serr := LoadSnapshot(spec.EndSnap); serr == nil {
+				if _, f := MatchSnapshot(snap, p, states, acked, acked, "before-clean-close"); f != nil {
+					f.Sig = strings.Replace(f.Sig, "acked-write-lost@", "acked-write-invisible@", 1)
+					f.Msg = msg + "observed by the writing process itself before it closed: " + f.Msg
+					return f, classes
+				}
+				classes = append(classes, "state_before_clean_close_observed")
+			}
+		}
 		if c.ChildVerifies && ri < len(c.Rounds)-1 {
 			pending = &pendingVerify{states, lower, upper, site, msg}
 			from = to
